@@ -176,3 +176,31 @@ Proof.
   - destruct (p <? q); [lia|]. destruct (q <? p); lia.
   - destruct (negb (p =? -1)); [lia|]. destruct (negb (q =? -1)); lia.
 Qed.
+
+(** * the universe *)
+Lemma nodup_keep_in seen l x : In x (nodup_keep seen l) <-> In x l /\ ~ In x seen.
+Proof.
+  revert seen; induction l as [|a l IH]; intros seen; simpl; [tauto|].
+  destruct (mem a seen) eqn:E.
+  - apply mem_In in E. rewrite IH. split; [tauto|]. intros [[<-|H] Hn]; [contradiction|tauto].
+  - apply mem_false in E. simpl. rewrite IH. simpl. split.
+    + intros [<-|[H1 H2]]; [tauto|]. tauto.
+    + intros [[<-|H] Hn]; [tauto|]. destruct (Nat.eq_dec a x) as [<-|Ne]; [tauto|]. right. tauto.
+Qed.
+
+Lemma nodup_keep_NoDup seen l : NoDup (nodup_keep seen l).
+Proof.
+  revert seen; induction l as [|a l IH]; intros seen; simpl; [constructor|].
+  destruct (mem a seen) eqn:E; [apply IH|].
+  constructor; [|apply IH]. rewrite nodup_keep_in. simpl. tauto.
+Qed.
+
+Lemma universe_NoDup D : NoDup (universe D).
+Proof. apply nodup_keep_NoDup. Qed.
+
+Lemma universe_in D x : In x (universe D) <-> exists r, In r D /\ ranked r x.
+Proof.
+  unfold universe. rewrite nodup_keep_in, in_concat. split.
+  - intros [(l & Hl & Hx) _]. apply in_map_iff in Hl as (r & <- & Hr). eauto.
+  - intros (r & Hr & Hx). split; [|tauto]. exists (elems r). split; [apply in_map; assumption|assumption].
+Qed.
